@@ -143,6 +143,32 @@ func (x *Exec) bigMethod(e *Env, callee *types.Func, recv ast.Expr, n *ast.CallE
 	case "Neg":
 		_, a := arg(0)
 		return x.bigSet(e, z, Neg(a)), true
+	case "Exp":
+		// z = x**y mod |m| (m nil or 0: no reduction), for a constant exponent 0 <= y <= 64
+		_, a := arg(0)
+		_, yv := arg(1)
+		yc, ok := x.simplifyWithPC(e.st, yv).Int64()
+		if !ok || yc < 0 || yc > 64 {
+			unsupported("%s: big.Int.Exp with a non-constant or large exponent", e.where)
+		}
+		r := IntC(1)
+		for i := int64(0); i < yc; i++ {
+			r = Mul(r, a)
+		}
+		mv := e.expr(n.Args[2])
+		if _, isNil := mv.(NilV); !isNil {
+			_, m := arg(2)
+			mc := x.simplifyWithPC(e.st, m)
+			if x.fieldModulus != nil && (m == x.fieldModulus || (mc.Op == "const" && mc.V.Sign() == 0)) {
+				// field-congruence mode: reduction is the identity
+			} else {
+				if mc.Op != "const" || mc.V.Sign() <= 0 {
+					x.safety(e, "exp.modulus", n, Lt(IntC(0), m))
+				}
+				r = EMod(r, m)
+			}
+		}
+		return x.bigSet(e, z, r), true
 	case "Lsh", "Rsh":
 		_, a := arg(0)
 		cnt := x.simplifyWithPC(e.st, e.toIntTerm(e.expr(n.Args[1])))
